@@ -94,6 +94,41 @@ pub fn ctx_from_case(w: usize, v: &Value) {
     }
 }
 
+/// The case a thread is working on, as the JSON that `--replay` takes (for checks other than
+/// C01): if the thread makes no progress for the watchdog's limit, this is what gets saved.
+static CURRENT_JSON: Mutex<Vec<(usize, Value)>> = Mutex::new(Vec::new());
+static NEXT_SLOT: std::sync::atomic::AtomicUsize = std::sync::atomic::AtomicUsize::new(0);
+thread_local! {
+    static SLOT: Cell<usize> = const { Cell::new(usize::MAX) };
+}
+
+fn my_slot() -> usize {
+    SLOT.with(|s| {
+        if s.get() == usize::MAX {
+            s.set(NEXT_SLOT.fetch_add(1, Ordering::Relaxed) % WORKERS);
+        }
+        s.get()
+    })
+}
+
+/// mark the start of a case that could fail to terminate
+pub fn guard_case(v: Value) {
+    let w = my_slot();
+    if let Ok(mut c) = CURRENT_JSON.try_lock() {
+        if let Some(e) = c.iter_mut().find(|e| e.0 == w) {
+            e.1 = v;
+        } else {
+            c.push((w, v));
+        }
+    }
+    HEARTBEAT[w].store(now_ms(), Ordering::Relaxed);
+}
+
+/// the case is over (the thread may idle from here on)
+pub fn guard_done() {
+    HEARTBEAT[my_slot()].store(0, Ordering::Relaxed);
+}
+
 pub fn end_worker(w: usize) {
     HEARTBEAT[w].store(0, Ordering::Relaxed);
 }
@@ -105,6 +140,12 @@ pub fn start_watchdog(limit_ms: u64) {
         for w in 0..WORKERS {
             let t = HEARTBEAT[w].load(Ordering::Relaxed);
             if t != 0 && now.saturating_sub(t) > limit_ms {
+                let p = std::env::var("VERIF_WATCHDOG_FILE").map(std::path::PathBuf::from).unwrap_or_else(|_| verif_dir().join("replays").join("watchdog-input.json"));
+                if let Some(v) = CURRENT_JSON.lock().ok().and_then(|c| c.iter().find(|e| e.0 == w).map(|e| e.1.clone())) {
+                    let _ = std::fs::write(&p, v.to_string());
+                    println!("WATCHDOG: a case ran longer than {limit_ms} ms (input saved to {})", p.display());
+                    std::process::exit(3);
+                }
                 let cur = CURRENT.lock().ok().and_then(|c| c.iter().find(|e| e.0 == w).map(|e| bits::hex(&e.1))).unwrap_or_default();
                 let dir = verif_dir().join("replays").join("C01");
                 let _ = std::fs::create_dir_all(&dir);
